@@ -498,6 +498,44 @@ def r20_10(run, model):
                    "with the same kind and byte range in util.gom")
 
 
+def r20_11(run, model):
+    run.rule("R20.11", "what is offered after `x.` type-checks when inserted: (a) a function of an inherent impl is offered as a method only after "
+                       "its scheme was examined for a receiver parameter (`x.m()` passes x as first argument; `Point::new` has none); (b) the "
+                       "receiver type is used as the type checker sees it - field access and method lookup have no auto-dereference, so "
+                       "the completion code does not look through Ref[..] either")
+    f = model.fn("completions_for_type", QUERY)
+    n = 0
+    for c in S.walk(f.body):
+        if c["k"] != "MethodCall" or c["method"] != "map" or "methods" not in S.norm_ws(run.facts.text(QUERY, c["recv"]["sp"])):
+            continue
+        n += 1
+        recv = S.norm_ws(run.facts.text(QUERY, c["recv"]["sp"]))
+        filtered = re.search(r"\.filter(_map)?\(", recv) is not None and re.search(r"\.ty\b|params", recv) is not None
+        run.ob("R20.11", f"completions_for_type|method list #{n} keeps only functions that take the receiver", filtered, site(QUERY, c["sp"]),
+               f"iterator: {recv[:90]}",
+               witness="impl Point { fn origin() -> Point {..} fn getx(self: Point) -> int32 {..} }: after `p.` the list offers origin; "
+                       "`p.origin()` is rejected (function types have different parameter lengths)")
+    if n == 0:
+        raise AnalysisIncomplete("completions_for_type: no iteration over impl methods found")
+    # (b) no function on the dot-completion path maps TRef { elem } to a recursive call on elem
+    d = model.fn("dot_completions", QUERY)
+    onpath = {d.name, f.name} | {S.callee_name(c) for g in (d, f) for c in S.calls(g.body)}
+    derefs = []
+    for g in model.fns(QUERY):
+        if g.body is None or g.name not in onpath:
+            continue
+        for m in S.find(g.body, "Match"):
+            for arm in m["arms"]:
+                pt = S.norm_ws(run.facts.text(QUERY, arm["pat"]["sp"]))
+                bt = S.norm_ws(run.facts.text(QUERY, arm["body"]["sp"]))
+                if "TRef{" in pt and re.search(r"\b" + re.escape(g.name) + r"\(", bt):
+                    derefs.append(g.name)
+    run.ob("R20.11", "dot_completions|the receiver type is not dereferenced behind the type checker's back", not derefs, site(QUERY, d.node["sp"]),
+           f"functions on the completion path that look through Ref[..]: {sorted(set(derefs)) or 'none'}",
+           witness="r: Ref[Point]: after `r.` the members of Point are offered; `r.x` is rejected (no StructFieldAccess on TRef), one must write ref_get(r).x")
+    run.floor("method lists built by completions_for_type", n, 2)
+
+
 def run(run, model):
     mir = Mir(run.facts)
     g = Graph(mir)
@@ -506,6 +544,7 @@ def run(run, model):
     run.try_rule(r20_8, model)
     run.try_rule(r20_9, model)
     run.try_rule(r20_10, model)
+    run.try_rule(r20_11, model)
     from rules import c07
     run.rule("R20.7", "the occurs check looks into every component of every type former (shared with C07 R07.2, restricted to typer::unify): a "
                       "missed component lets a cyclic type through and the next query overflows the stack")
